@@ -464,6 +464,10 @@ def classify_reject(trace_lines, bad, scenario):
     a = bad.get("a", {})
     if ev == "Panic":
         return panic_signature(bad)
+    if ev == "StartupFailed":
+        return "reject/StartupFailed/initial-sets-could-not-be-fetched-from-a-node-that-answers"
+    if ev == "TickTimeout":
+        return "reject/TickTimeout/updater-tick-did-not-finish"
     if ev == "TickFailed":
         return "reject/TickFailed/%s" % ("updater-fetch-failed-although-the-node-answered" if not a.get("node_failures") else "state-changed")
     if ev == "AppendRet" and a.get("p") == "t" and "panic" not in a:
